@@ -21,10 +21,63 @@ use rustc_interface::interface::Compiler;
 use rustc_middle::mir::*;
 use rustc_middle::ty::print::PrintTraitRefExt;
 use rustc_middle::ty::{self, Instance, Ty, TyCtxt, TypingEnv};
+use rustc_hir::intravisit::{self, Visitor};
 use rustc_span::Span;
 use std::fmt::Write as _;
 
 struct Dump;
+
+// user-written (not desugared) break / continue / return expressions inside loops of one body, and `?` inside loops
+struct JumpVisitor<'tcx> {
+    tcx: TyCtxt<'tcx>,
+    depth: usize,
+    loop_lines: Vec<usize>,
+    out: Vec<String>,
+}
+
+impl<'tcx> JumpVisitor<'tcx> {
+    fn line(&self, sp: Span) -> usize {
+        self.tcx.sess.source_map().lookup_char_pos(sp.source_callsite().lo()).line
+    }
+    fn rec(&mut self, kind: &str, sp: Span) {
+        let l = self.line(sp);
+        let ll = *self.loop_lines.last().unwrap_or(&0);
+        self.out.push(format!("{{\"kind\":\"{}\",\"line\":{},\"loop_line\":{},\"depth\":{}}}", kind, l, ll, self.depth));
+    }
+}
+
+impl<'tcx> Visitor<'tcx> for JumpVisitor<'tcx> {
+    fn visit_expr(&mut self, e: &'tcx rustc_hir::Expr<'tcx>) {
+        use rustc_hir::ExprKind;
+        use rustc_span::DesugaringKind;
+        match e.kind {
+            ExprKind::Loop(..) => {
+                self.depth += 1;
+                let l = self.line(e.span);
+                self.loop_lines.push(l);
+                intravisit::walk_expr(self, e);
+                self.loop_lines.pop();
+                self.depth -= 1;
+                return;
+            }
+            ExprKind::Break(..) | ExprKind::Continue(..) | ExprKind::Ret(..) if self.depth > 0 => {
+                let dk = e.span.desugaring_kind();
+                let kind = match e.kind {
+                    ExprKind::Break(..) => "break",
+                    ExprKind::Continue(..) => "continue",
+                    _ => "return",
+                };
+                match dk {
+                    None => self.rec(kind, e.span),
+                    Some(DesugaringKind::QuestionMark) => self.rec("try", e.span),
+                    _ => {}
+                }
+            }
+            _ => {}
+        }
+        intravisit::walk_expr(self, e);
+    }
+}
 
 fn esc(s: &str) -> String {
     let mut o = String::with_capacity(s.len() + 2);
@@ -455,6 +508,14 @@ impl<'tcx> Cx<'tcx> {
                 )
             })
             .collect();
+        let mut jumps = "[]".to_string();
+        if promoted.is_none() && kind == "fn" {
+            if let Some(hb) = tcx.hir_maybe_body_owned_by(did) {
+                let mut jv = JumpVisitor { tcx, depth: 0, loop_lines: Vec::new(), out: Vec::new() };
+                jv.visit_expr(hb.value);
+                jumps = list(jv.out);
+            }
+        }
         let dk = tcx.def_kind(d);
         let vis = if matches!(dk, DefKind::Fn | DefKind::AssocFn) {
             format!("{:?}", tcx.visibility(d))
@@ -489,7 +550,7 @@ impl<'tcx> Cx<'tcx> {
             }
         }
         format!(
-            "{{\"path\":{},\"kind\":{},\"def_kind\":{},\"promoted\":{},\"vis\":{},\"reachable\":{},\"file\":{},\"lo\":{},\"hi\":{},\"parent\":{},\"impl_of\":{},\"arg_count\":{},\"ret_ty\":{},\"locals\":{},\"dbg\":{},\"upvars\":{},\"blocks\":{}}}",
+            "{{\"path\":{},\"kind\":{},\"def_kind\":{},\"promoted\":{},\"vis\":{},\"reachable\":{},\"file\":{},\"lo\":{},\"hi\":{},\"parent\":{},\"impl_of\":{},\"arg_count\":{},\"ret_ty\":{},\"locals\":{},\"dbg\":{},\"upvars\":{},\"jumps\":{},\"blocks\":{}}}",
             esc(&self.path(d)),
             esc(kind),
             esc(&format!("{:?}", dk)),
@@ -506,6 +567,7 @@ impl<'tcx> Cx<'tcx> {
             list(locals),
             list(dbg),
             upvars,
+            jumps,
             list(blocks)
         )
     }
